@@ -948,11 +948,13 @@ func c14R3Callers(c *Ctx, us []*c14Upd) {
 		V := c14NewView(f, 4, c14RemoteExpandAll)
 		fn := FnName(f)
 		isSubjPtr := func(v ssa.Value) bool {
-			ls := V.LeavesShallow(v)
-			if len(ls) == 0 {
-				return false
-			}
+			ls := V.Leaves(v)
+			n := 0
 			for _, l := range ls {
+				if isNilConst(l) {
+					continue // the nil a decoding helper returns next to an error
+				}
+				n++
 				ld, isLd := l.(*ssa.UnOp)
 				if !isLd || ld.Op != token.MUL || !isFieldLoad(ld, "Subject") {
 					return false
@@ -961,7 +963,7 @@ func c14R3Callers(c *Ctx, us []*c14Upd) {
 					return false
 				}
 			}
-			return true
+			return n > 0
 		}
 		var subjNonNil []Edge
 		for _, g := range V.Funcs() {
@@ -994,7 +996,7 @@ func c14R3Callers(c *Ctx, us []*c14Upd) {
 			okS := len(subjNonNil) > 0 && V.MustPass(call.(ssa.Instruction), newCut().Edges(subjNonNil...))
 			okArg := false
 			for _, a := range call.Common().Args {
-				ls := V.LeavesShallow(a)
+				ls := V.Leaves(a)
 				allDeref := len(ls) > 0
 				for _, r := range ls {
 					d, isDeref := r.(*ssa.UnOp)
